@@ -12,7 +12,8 @@ variable {ι : Type} [DecidableEq ι]
 def genTun : Tun :=
   { lfNum := DSGen.fi_LOAD_FACTOR_num, lfDen := DSGen.fi_LOAD_FACTOR_den, maxSample := DSGen.fi_MAX_SAMPLE_SIZE,
     epsNum := DSGen.fi_EPSILON_FACTOR_num, epsDen := DSGen.fi_EPSILON_FACTOR_den, lgMin := DSGen.fi_LG_MIN_MAP_SIZE,
-    goldNum := DSGen.fi_GOLDEN_RATIO_RECIPROCAL_num, goldDen := DSGen.fi_GOLDEN_RATIO_RECIPROCAL_den }
+    goldNum := DSGen.fi_GOLDEN_RATIO_RECIPROCAL_num, goldDen := DSGen.fi_GOLDEN_RATIO_RECIPROCAL_den,
+    driftLimit := DSGen.fi_DRIFT_LIMIT }
 
 /-- With the LOAD_FACTOR and EPSILON_FACTOR of the current headers (side condition EPSILON_FACTOR · LOAD_FACTOR ≥ 2 by
 `decide`): maximum error ≤ EPSILON_FACTOR / 2^lg_max · total weight whenever every purge amount is at most the median. -/
